@@ -47,10 +47,17 @@ func (i *interpreter) indexIn(idx value, n int) int {
 		w := kindWidth(s.k)
 		var inRange *term
 		nn := tb.constBV(w, uint64(n))
+		// a length that does not fit the index type bounds nothing (e.g. table[byte] with 256 entries)
 		if kindSigned(s.k) {
-			inRange = tb.and(tb.cmp(opSLe, tb.constBV(w, 0), s.t), tb.cmp(opSLt, s.t, nn))
+			inRange = tb.cmp(opSLe, tb.constBV(w, 0), s.t)
+			if w >= 64 || uint64(n) <= mask(w-1) {
+				inRange = tb.and(inRange, tb.cmp(opSLt, s.t, nn))
+			}
 		} else {
-			inRange = tb.cmp(opULt, s.t, nn)
+			inRange = tb.tt
+			if w >= 64 || uint64(n) <= mask(w) {
+				inRange = tb.cmp(opULt, s.t, nn)
+			}
 		}
 		if !i.ex.decide(inRange) {
 			panic(rtPanic("index out of range [symbolic] with length %d", n))
@@ -73,10 +80,17 @@ func (i *interpreter) boundIn(x value, lo, hi int, what string) int {
 		tb := i.ex.tb
 		w := kindWidth(s.k)
 		var ok2 *term
+		// an upper bound that does not fit the operand type bounds nothing
 		if kindSigned(s.k) {
-			ok2 = tb.and(tb.cmp(opSLe, tb.constBV(w, uint64(lo)), s.t), tb.cmp(opSLe, s.t, tb.constBV(w, uint64(hi))))
+			ok2 = tb.cmp(opSLe, tb.constBV(w, uint64(lo)), s.t)
+			if w >= 64 || uint64(hi) <= mask(w-1) {
+				ok2 = tb.and(ok2, tb.cmp(opSLe, s.t, tb.constBV(w, uint64(hi))))
+			}
 		} else {
-			ok2 = tb.and(tb.cmp(opULe, tb.constBV(w, uint64(lo)), s.t), tb.cmp(opULe, s.t, tb.constBV(w, uint64(hi))))
+			ok2 = tb.cmp(opULe, tb.constBV(w, uint64(lo)), s.t)
+			if w >= 64 || uint64(hi) <= mask(w) {
+				ok2 = tb.and(ok2, tb.cmp(opULe, s.t, tb.constBV(w, uint64(hi))))
+			}
 		}
 		if !i.ex.decide(ok2) {
 			panic(rtPanic("slice bounds out of range [%s symbolic] with capacity %d", what, hi))
